@@ -1728,7 +1728,8 @@ class Protocol(utils.EventEmitter):
             endpoint = self.get_local_endpoint_by_seid(seid)
             if endpoint is None:
                 return Start_Reject(seid, AVDTP_BAD_ACP_SEID_ERROR)
-            if endpoint.stream is None:
+            if endpoint.stream is None or endpoint.stream.state != State.OPEN:
+                # Refuse before any of the streams is started
                 return Start_Reject(seid, AVDTP_BAD_STATE_ERROR)
 
         # Start all streams
@@ -1747,7 +1748,8 @@ class Protocol(utils.EventEmitter):
             endpoint = self.get_local_endpoint_by_seid(seid)
             if endpoint is None:
                 return Suspend_Reject(seid, AVDTP_BAD_ACP_SEID_ERROR)
-            if endpoint.stream is None:
+            if endpoint.stream is None or endpoint.stream.state != State.STREAMING:
+                # Refuse before any of the streams is suspended
                 return Suspend_Reject(seid, AVDTP_BAD_STATE_ERROR)
 
         # Suspend all streams
